@@ -605,6 +605,72 @@ func runGuards(c *core.Ctx, r *core.Report, p *packages.Package, fd *ast.FuncDec
 	return w.sites, w.unclass
 }
 
+// svgNumberTable finds the per-command number table of a parser: a keyed composite literal with
+// at least five constant byte keys and int values, typed map[byte]int, [N]int or []int.
+// arrLen is -1 for a map.
+func svgNumberTable(info *types.Info, fd *ast.FuncDecl) (entries map[int64]int64, table types.Object, arrLen int64, lit *ast.CompositeLit) {
+	arrLen = -1
+	ast.Inspect(fd.Body, func(n ast.Node) bool {
+		if lit != nil {
+			return false
+		}
+		as, ok := n.(*ast.AssignStmt)
+		if !ok || len(as.Lhs) != 1 || len(as.Rhs) != 1 {
+			return true
+		}
+		cl, ok := as.Rhs[0].(*ast.CompositeLit)
+		if !ok {
+			return true
+		}
+		var elem types.Type
+		l := int64(-1)
+		switch t := info.TypeOf(cl).Underlying().(type) {
+		case *types.Map:
+			if kb, ok := t.Key().Underlying().(*types.Basic); !ok || kb.Kind() != types.Uint8 {
+				return true
+			}
+			elem = t.Elem()
+		case *types.Array:
+			elem, l = t.Elem(), t.Len()
+		case *types.Slice:
+			elem = t.Elem()
+		default:
+			return true
+		}
+		if b, ok := elem.Underlying().(*types.Basic); !ok || b.Kind() != types.Int {
+			return true
+		}
+		m := map[int64]int64{}
+		maxKey := int64(-1)
+		for _, el := range cl.Elts {
+			kv, ok := el.(*ast.KeyValueExpr)
+			if !ok {
+				continue
+			}
+			k, ok1 := core.ConstInt(info, kv.Key)
+			v, ok2 := core.ConstInt(info, kv.Value)
+			if ok1 && ok2 {
+				m[k] = v
+				if k > maxKey {
+					maxKey = k
+				}
+			}
+		}
+		if len(m) < 5 {
+			return true
+		}
+		if _, isSlice := info.TypeOf(cl).Underlying().(*types.Slice); isSlice {
+			l = maxKey + 1
+		}
+		if id, ok := as.Lhs[0].(*ast.Ident); ok {
+			table = core.ObjOf(info, id)
+		}
+		entries, arrLen, lit = m, l, cl
+		return false
+	})
+	return
+}
+
 // E4ParserGuards: ParseSVGPath and skipCommaWhitespace never index the input beyond its length.
 func E4ParserGuards(c *core.Ctx, r *core.Report) {
 	r.Rule("E4.index-guard", "every index (not slice) of the input byte slice in ParseSVGPath/skipCommaWhitespace is dominated, on every path through the function, by a comparison implying index < len(input) with no intervening assignment to the index variable (path := []byte(s) carries len(s) facts)")
@@ -637,6 +703,12 @@ func E4ParserGuards(c *core.Ctx, r *core.Report) {
 	fd := core.MustFuncDecl(p, "ParseSVGPath")
 	info := p.TypesInfo
 	maxN, bufLen := int64(-1), int64(-1)
+	tabEntries, tabObj, tabLen, _ := svgNumberTable(info, fd)
+	for _, v := range tabEntries {
+		if v > maxN {
+			maxN = v
+		}
+	}
 	ast.Inspect(fd.Body, func(n ast.Node) bool {
 		as, ok := n.(*ast.AssignStmt)
 		if !ok || len(as.Lhs) != 1 || len(as.Rhs) != 1 {
@@ -646,24 +718,51 @@ func E4ParserGuards(c *core.Ctx, r *core.Report) {
 		if !ok {
 			return true
 		}
-		switch t := info.TypeOf(cl).Underlying().(type) {
-		case *types.Map:
-			if b, ok := t.Elem().Underlying().(*types.Basic); ok && b.Kind() == types.Int {
-				for _, el := range cl.Elts {
-					if kv, ok := el.(*ast.KeyValueExpr); ok {
-						if v, ok := core.ConstInt(info, kv.Value); ok && v > maxN {
-							maxN = v
-						}
-					}
-				}
-			}
-		case *types.Array:
+		if t, ok := info.TypeOf(cl).Underlying().(*types.Array); ok {
 			if b, ok := t.Elem().Underlying().(*types.Basic); ok && b.Kind() == types.Float64 {
 				bufLen = t.Len()
 			}
 		}
 		return true
 	})
+	// every index into the table is in range for every value of its index expression
+	r.Rule("E4.table-index", "ParseSVGPath: the per-command number table is indexed with a byte taken from the input. If the table is a map every byte is a valid key; if it is an array or slice of length N, N exceeds the largest value of the index expression's type (255 for a byte) — otherwise a byte of 0x80 or more in command position indexes out of range and the parser panics instead of reporting an unknown command")
+	if tabObj != nil {
+		nidx := 0
+		ast.Inspect(fd.Body, func(n ast.Node) bool {
+			ie, ok := n.(*ast.IndexExpr)
+			if !ok {
+				return true
+			}
+			id, ok := core.Unparen(ie.X).(*ast.Ident)
+			if !ok || core.ObjOf(info, id) != tabObj {
+				return true
+			}
+			nidx++
+			key := fmt.Sprintf("canvas.ParseSVGPath|number table index #%d is in range for every input byte", nidx)
+			if tabLen < 0 {
+				r.OK("E4.table-index", key, c.Pos(ie.Pos()), "map")
+				return true
+			}
+			maxIdx := int64(-1)
+			if v, ok := core.ConstInt(info, ie.Index); ok {
+				maxIdx = v
+			} else if b, ok := info.TypeOf(ie.Index).Underlying().(*types.Basic); ok {
+				switch b.Kind() {
+				case types.Uint8:
+					maxIdx = 255
+				}
+			}
+			if maxIdx >= 0 && maxIdx < tabLen {
+				r.OK("E4.table-index", key, c.Pos(ie.Pos()), fmt.Sprintf("max index %d < %d", maxIdx, tabLen))
+			} else {
+				r.Fail("E4.table-index", key, c.Pos(ie.Pos()), fmt.Sprintf("the table has %d entries but is indexed with `%s` (%s), which can be as large as %d (unbounded if negative): an input byte outside the table panics", tabLen, c.Src(ie.Index), info.TypeOf(ie.Index), maxIdx))
+			}
+			return true
+		})
+		r.Count("E4.table-index-sites", nidx)
+		r.Floor("E4.table-index-sites", 1)
+	}
 	if maxN < 0 || bufLen < 0 {
 		r.Fail("E4.table-bound", "canvas.ParseSVGPath|cmdLens<=len(f)", c.Pos(fd.Pos()), "number-count table or number buffer not found")
 	} else if maxN > bufLen {
@@ -974,37 +1073,20 @@ func E4ParserProgress(c *core.Ctx, r *core.Report) {
 	info := p.TypesInfo
 	fd := core.MustFuncDecl(p, "ParseSVGPath")
 	r.Func("canvas.ParseSVGPath")
-	// 1. the number table: map[byte]int literal; letters with 0 numbers
+	// 1. the number table (map[byte]int, or an array/slice keyed by the letter); letters with 0 numbers
 	var zero []byte
-	entries := 0
-	ast.Inspect(fd.Body, func(n ast.Node) bool {
-		cl, ok := n.(*ast.CompositeLit)
-		if !ok {
-			return true
+	tab, _, _, _ := svgNumberTable(info, fd)
+	entries := len(tab)
+	var tabKeys []int64
+	for k := range tab {
+		tabKeys = append(tabKeys, k)
+	}
+	sort.Slice(tabKeys, func(i, j int) bool { return tabKeys[i] < tabKeys[j] })
+	for _, k := range tabKeys {
+		if tab[k] == 0 {
+			zero = append(zero, byte(k))
 		}
-		mt, ok := info.TypeOf(cl).Underlying().(*types.Map)
-		if !ok {
-			return true
-		}
-		if kb, ok := mt.Key().Underlying().(*types.Basic); !ok || kb.Kind() != types.Uint8 {
-			return true
-		}
-		for _, el := range cl.Elts {
-			kv, ok := el.(*ast.KeyValueExpr)
-			if !ok {
-				continue
-			}
-			k, ok1 := core.ConstInt(info, kv.Key)
-			v, ok2 := core.ConstInt(info, kv.Value)
-			if ok1 && ok2 {
-				entries++
-				if v == 0 {
-					zero = append(zero, byte(k))
-				}
-			}
-		}
-		return true
-	})
+	}
 	if entries < 5 {
 		panic(core.Infra("E4.parser-progress: the per-command number table of ParseSVGPath was not found"))
 	}
@@ -1370,4 +1452,113 @@ func E4AllocCoversIndex(c *core.Ctx, r *core.Report) {
 	}
 	r.Count("E4.keyed-fill-sites", n)
 	r.Floor("E4.keyed-fill-sites", 1)
+}
+
+// E4LogDomain: the argument of a logarithm that is a quotient has its denominator tested.
+func E4LogDomain(c *core.Ctx, r *core.Report) {
+	r.Rule("E4.log-domain", "module-wide: where math.Log is applied to a quotient (directly, or to a local defined once as a quotient), the function compares the denominator — the expression itself or the local it was bound to — with zero (`<= 0`, `== 0`, `< 0`, Equal(…, 0)) before the call. quadraticBezierLength's closed form divides by B/√A + 2√C, which is exactly zero when the control point lies on the chord's line beyond an end point; the logarithm's coefficient is zero there too and the sum became 0·Inf = NaN, so Path.Length was NaN")
+	n := 0
+	for _, p := range c.Pkgs {
+		info := p.TypesInfo
+		for _, fd := range core.AllFuncDecls(p) {
+			if fd.Body == nil || strings.HasSuffix(c.Fset.Position(fd.Pos()).Filename, "_test.go") {
+				continue
+			}
+			fname := p.Types.Name() + "." + core.FuncName(fd)
+			ord := 0
+			ast.Inspect(fd.Body, func(m ast.Node) bool {
+				call, ok := m.(*ast.CallExpr)
+				if !ok || !core.IsPkgFunc(info, call, "math", "Log") || len(call.Args) != 1 {
+					return true
+				}
+				// resolve the argument to a quotient
+				arg := core.Unparen(call.Args[0])
+				resolve := func(e ast.Expr) ast.Expr {
+					id, ok := core.Unparen(e).(*ast.Ident)
+					if !ok {
+						return e
+					}
+					o := core.ObjOf(info, id)
+					var def ast.Expr
+					cnt := 0
+					ast.Inspect(fd.Body, func(k ast.Node) bool {
+						if as, ok := k.(*ast.AssignStmt); ok && len(as.Lhs) == len(as.Rhs) {
+							for i, l := range as.Lhs {
+								if lid, ok := l.(*ast.Ident); ok && core.ObjOf(info, lid) == o {
+									cnt++
+									def = as.Rhs[i]
+								}
+							}
+						}
+						return true
+					})
+					if cnt == 1 {
+						return core.Unparen(def)
+					}
+					return e
+				}
+				arg = resolve(arg)
+				be, ok := arg.(*ast.BinaryExpr)
+				if !ok || be.Op != token.QUO {
+					return true
+				}
+				n++
+				ord++
+				key := fmt.Sprintf("%s|logarithm of a quotient #%d: the denominator is tested against zero", fname, ord)
+				den := core.Unparen(be.Y)
+				denStr := squash(types.ExprString(den))
+				var denObj types.Object
+				if id, ok := den.(*ast.Ident); ok {
+					denObj = core.ObjOf(info, id)
+				}
+				tested := false
+				ast.Inspect(fd.Body, func(k ast.Node) bool {
+					is, ok := k.(*ast.IfStmt)
+					if !ok || is.Pos() > call.Pos() {
+						return true
+					}
+					ast.Inspect(is.Cond, func(q ast.Node) bool {
+						var x, y ast.Expr
+						switch e := q.(type) {
+						case *ast.BinaryExpr:
+							switch e.Op {
+							case token.LSS, token.LEQ, token.GTR, token.GEQ, token.EQL, token.NEQ:
+								x, y = e.X, e.Y
+							}
+						case *ast.CallExpr:
+							if f := core.CalleeOf(info, e); f != nil && f.Name() == "Equal" && len(e.Args) == 2 {
+								x, y = e.Args[0], e.Args[1]
+							}
+						}
+						if x == nil {
+							return true
+						}
+						for i, s := range []ast.Expr{x, y} {
+							o := []ast.Expr{y, x}[i]
+							f, isConst := constantFloat(core.ConstVal(info, o))
+							if !isConst || f != 0 {
+								continue
+							}
+							s = core.Unparen(s)
+							if id, ok := s.(*ast.Ident); ok && denObj != nil && core.ObjOf(info, id) == denObj {
+								tested = true
+							} else if squash(types.ExprString(s)) == denStr {
+								tested = true
+							}
+						}
+						return true
+					})
+					return true
+				})
+				if tested {
+					r.OK("E4.log-domain", key, c.Pos(call.Pos()), "")
+				} else {
+					r.Fail("E4.log-domain", key, c.Pos(call.Pos()), fmt.Sprintf("math.Log is applied to a quotient whose denominator `%s` is never compared with zero in %s: where it vanishes the result is ±Inf or NaN", c.Src(be.Y), fname))
+				}
+				return true
+			})
+		}
+	}
+	r.Count("E4.log-of-quotient-sites", n)
+	r.Floor("E4.log-of-quotient-sites", 1)
 }
